@@ -50,6 +50,10 @@ func Unmarshal(attrsStr string) (*Attributes, error) {
 		// TODO: cleanup UnmarshalLegacy once we upgrade the gensign IFVer to 7.
 		return UnmarshalLegacy(attrsStr)
 	}
+	if attrs == nil {
+		// The JSON value "null" resets the pointer; it is not an attribute object.
+		return UnmarshalLegacy(attrsStr)
+	}
 	err := attrs.sanityCheck()
 	if err != nil {
 		return nil, fmt.Errorf("gensign attributes sanity check failed, err: %v", err)
